@@ -3,6 +3,8 @@ package sx
 import (
 	"fmt"
 	"math/big"
+	"regexp"
+	"sort"
 
 	"verif/engine/smt"
 )
@@ -329,3 +331,43 @@ func (m *Machine) strTerm(v Value) *smt.Term {
 	unsupported("abstract view of %T", v)
 	return nil
 }
+
+// ---- accessors for harnesses
+
+// Nodes returns every node created so far, sorted by name.
+func (m *Machine) Nodes() []*Node {
+	var names []string
+	for k := range m.nodes {
+		names = append(names, k)
+	}
+	sort.Strings(names)
+	out := make([]*Node, len(names))
+	for i, k := range names {
+		out[i] = m.nodes[k]
+	}
+	return out
+}
+
+// PatternSources lists the registered regular expressions.
+func (m *Machine) PatternSources() []string { return m.patternOrder }
+
+// Pattern returns the compiled regexp for a registered source.
+func (m *Machine) Pattern(src string) *regexp.Regexp { return m.patterns[src] }
+
+// StrConstTerms returns the Str constants in creation order.
+func (m *Machine) StrConstTerms() []*smt.Term {
+	var out []*smt.Term
+	for _, s := range m.strConstOrder {
+		out = append(out, m.strConsts[s])
+	}
+	return out
+}
+
+// StrConstMap returns string -> Str constant.
+func (m *Machine) StrConstMap() map[string]*smt.Term { return m.strConsts }
+
+// ExtraModelTerms lists additional terms harnesses want in models.
+func (m *Machine) ExtraModelTerms() []*smt.Term { return m.extraModel }
+
+// WantInModel registers t to be included in models.
+func (m *Machine) WantInModel(t *smt.Term) { m.extraModel = append(m.extraModel, t) }
